@@ -245,13 +245,18 @@ def rule_c(ctx, ix):
         raise AnalysisError('Data.compute_statistic: chunk loop not recognised')
     lp = loops[0]
     cv = unparse(lp.target)
+    from ..util import expand_locals as _xl
+
+    def _xl_shallow(fnode, e):
+        return _xl(fnode, e, depth=1)       # one step: the name behind a name, not the definition of the axis index
     # the name of the non-reduced axis: the index applied to the chunk view in the write-back `result[chunk_view[<name>]] = ...`
     ai_name = None
     for st in lp.body:
         if isinstance(st, ast.Assign) and isinstance(st.targets[0], ast.Subscript):
-            sl = st.targets[0].slice
-            if isinstance(sl, ast.Subscript) and unparse(sl.value) == cv and isinstance(sl.slice, ast.Name):
-                ai_name = sl.slice.id
+            for sl in (st.targets[0].slice, _xl_shallow(f.node, st.targets[0].slice)):    # (also through `chunk_slice, values = chunk_view[axis], v`)
+                if isinstance(sl, ast.Subscript) and unparse(sl.value) == cv and isinstance(sl.slice, ast.Name):
+                    ai_name = sl.slice.id
+                    break
     if ai_name is None:
         wb = [st for st in lp.body if isinstance(st, ast.Assign) and isinstance(st.targets[0], ast.Subscript)]
         if len(wb) == 1:
@@ -266,12 +271,17 @@ def rule_c(ctx, ix):
     if len(stores) != 1 or len(vals) != 1:
         raise AnalysisError('Data.compute_statistic: chunk loop body not recognised')
     idx = unparse(stores[0].targets[0].slice).replace(' ', '')
+    if idx != '%s[%s]' % (cv, ai_name):
+        idx = unparse(_xl_shallow(f.node, stores[0].targets[0].slice)).replace(' ', '')
     direct = vals[0] is stores[0]         # result[...] = self.compute_statistic(...)
     vname = None if direct else unparse(vals[0].targets[0])
-    ok = (direct or unparse(stores[0].value) == vname) and idx == '%s[%s]' % (cv, ai_name)
+    ok = (direct or unparse(stores[0].value) == vname or unparse(_xl(f.node, stores[0].value)) == unparse(vals[0].value)) and \
+        idx == '%s[%s]' % (cv, ai_name)
     ctx.ob(R, f.construct + ' write-back', 'result[chunk_view[axis_index]] receives the values of that chunk', ok,
            detail='the chunk loop stores `%s`: the statistic of a chunk lands at another position of the result' % norm(stores[0]),
            where=where(f, stores[0]))
+    # guard clauses in front of the choice (`if view is not None: axis = None ... else: axis = next(...)`) bind None
+    ai = [st for st in ai if not (isinstance(st.value, ast.Constant) and st.value.value is None)] or ai
     txt = unparse(ai[0].value).replace(' ', '') if len(ai) == 1 else ''
     ctx.idiom(R, f.construct + ' axis_index', 'axis_index is the one axis that is not reduced',
               accepted=_first_axis_not_reduced(ai[0].value) if len(ai) == 1 else False,
